@@ -31,7 +31,7 @@ Proof. destruct lit; cbn; now rewrite ?app_nil_r. Qed.
 Lemma render_pre_app lit r : render value ((match lit with [] => [] | _ => [Lit lit] end) ++ r) = lit ++ render value r.
 Proof. destruct lit; reflexivity. Qed.
 Lemma render_cons cmp r : cmp <> Flush -> render value (cmp :: r) = render value [cmp] ++ render value r.
-Proof. destruct cmp as [s| |d w j]; intros H; [cbn; now rewrite app_nil_r|congruence|cbn; now rewrite app_nil_r]. Qed.
+Proof. destruct cmp as [s| |d w j|d w j p]; intros H; [cbn; now rewrite app_nil_r|congruence|cbn; now rewrite app_nil_r|cbn; now rewrite app_nil_r]. Qed.
 
 (* a literal character extends the accumulator *)
 Lemma good_plain fuel acc c s out : (c =? 37) = false -> (c =? 92) = false ->
@@ -82,7 +82,7 @@ Qed.
 
 (* facts about the tables (regenerated from the source, pinned by TablesOk) *)
 Lemma directive_letter d : assoc d printf_directives <> None ->
-  is_digit d = false /\ (d =? 32) = false /\ (d =? 45) = false /\ (d =? 37) = false.
+  is_digit d = false /\ (d =? 32) = false /\ (d =? 45) = false /\ (d =? 37) = false /\ (d =? 46) = false.
 Proof.
   rewrite printf_directives_ok. cbn [assoc].
   repeat match goal with |- context [d =? ?k] => destruct (Nat.eqb_spec d k) as [->|_]; [intros _; repeat split; reflexivity|] end.
@@ -151,7 +151,7 @@ Proof.
       apply andb_true_iff in Hi as [Hi Hl]. apply andb_true_iff in Hi as [Hi Hd]. apply andb_true_iff in Hi as [Hi Ht].
       apply negb_true_iff in Ht. apply Nat.leb_le in Hl.
       destruct (assoc d printf_directives) as [k|] eqn:Ea; [|discriminate].
-      destruct (directive_letter d ltac:(congruence)) as (Hdd & H32 & H45 & H37).
+      destruct (directive_letter d ltac:(congruence)) as (Hdd & H32 & H45 & H37 & H46).
       cbn [app length] in Hf |- *.
       rewrite <- !app_assoc.
       apply (good_special fuel acc 37 ((match j with JLeft => [45] | JRight => [] end) ++ ds ++ [d] ++ show items)
@@ -168,8 +168,8 @@ Proof.
           destruct j; cbn [app skip_flags]; [|apply Hnf]. cbn [Nat.eqb]. apply Hnf. }
         rewrite Hsk. rewrite take_digits_app by (assumption || exact Hdd). cbn [app].
         unfold width_of, width_ref. destruct ds as [|x ds'].
-        -- cbn [app]. rewrite H37, Ht, Ea. reflexivity.
-        -- destruct (Nat.ltb_spec 9 (length (x :: ds'))); [lia|]. cbn [app]. rewrite H37, Ht, Ea. reflexivity.
+        -- cbn [app]. rewrite H46. cbv zeta iota beta. rewrite H37, Ht, Ea. reflexivity.
+        -- destruct (Nat.ltb_spec 9 (length (x :: ds'))); [lia|]. cbn [app]. rewrite H46. cbv zeta iota beta. rewrite H37, Ht, Ea. reflexivity.
       * rewrite !app_length in Hf. cbn [length] in Hf. lia.
 Qed.
 
